@@ -1,7 +1,9 @@
 package props
 
 import (
+	"bytes"
 	"fmt"
+	"github.com/Syuparn/pangaea/runscript"
 	"math"
 	"math/big"
 	"math/rand"
@@ -186,9 +188,20 @@ func genStr(rng *rand.Rand) c17case {
 	n := rng.Intn(12)
 	mode := rng.Intn(10)
 	for i := 0; i < n; i++ {
+		if mode == 2 && rng.Intn(3) == 0 {
+			// an interpolation between the characters (right after an escape, before a quote, …) adds its value
+			// and leaves the characters around it as they are
+			src.WriteString("#{7}")
+			want.WriteString("7")
+			plain.WriteString("7")
+			c.form = "documented-escapes+interpolation"
+		}
 		switch r := rng.Intn(10); {
 		case r < 6:
 			ch := c17plainRunes[rng.Intn(len(c17plainRunes))]
+			if ch == '#' && mode == 2 {
+				ch = 'h' // (a `#` after an interpolation is a known lexer quirk outside this property's literals)
+			}
 			if ch == '#' {
 				// `#` not followed by `{` is an ordinary character
 				src.WriteString("#")
@@ -501,6 +514,41 @@ func init() {
 
 func runC17(w *fw.W) {
 	var ip *interp.Interp
+	// literals typed into the REPL denote what they denote in a script: blanks and line breaks inside a
+	// literal (a char literal that is a blank at the end of the line, indented / blank-ended lines of a raw string)
+	if w.Take() {
+		w.Begin("literals through the REPL", nil)
+		var vs violSet
+		type lit struct {
+			lines       []string
+			probe, want string
+		}
+		n := 0
+		for _, l := range []lit{
+			{[]string{"sp := ? "}, `sp == " "`, "true"}, {[]string{"tb := ?\t"}, `tb == "\t"`, "true"}, {[]string{`q := "  padded  "`}, "q.len", "10"},
+			{[]string{`w := "a" + ? `}, "w.len", "2"}, {[]string{"multi", "r := `a", "  two  ", "b`", "", "single"}, "r.len", "11"},
+			{[]string{"multi", "r2 := `  lead", "trail  `", "", "single"}, "r2.len", "14"},
+			{[]string{"s3 := `  `"}, "s3.len", "2"}, {[]string{"n7 := 0x1F "}, "n7", "31"}, {[]string{"  ind := 'sym"}, "ind", `"sym"`},
+		} {
+			session := strings.Join(l.lines, "\n") + "\n" + l.probe + "\n"
+			var out bytes.Buffer
+			runscript.StartREPL("", strings.NewReader(session), &out)
+			n++
+			tr := out.String()
+			last := ""
+			for _, ln := range strings.Split(strings.TrimSpace(tr), "\n") {
+				if strings.HasPrefix(ln, ">>> ") && strings.TrimSpace(strings.TrimPrefix(ln, ">>> ")) != "" {
+					last = strings.TrimSpace(strings.TrimPrefix(ln, ">>> "))
+				}
+			}
+			if last != l.want {
+				vs.add("C17|repl-literal|wrong-value", fmt.Sprintf("REPL session %q then `%s`: answered %q, the literal denotes %s", l.lines, l.probe, last, l.want), session)
+			}
+		}
+		r := fw.Result{Verdict: fw.Held, Evals: n, Counters: map[string]int{"judged": n, "repl_literals": n}, DKeys: []string{"repl-literals"}}
+		vs.finish(&r)
+		w.End(r)
+	}
 	runBatch := func(label string, cases []c17case, counter string) {
 		if ip == nil {
 			ip = interp.New()
